@@ -20,6 +20,7 @@ package service
 //@ property C11 roots (*Server).handleConnection, (*Server).getSession, (*github.com/mdzio/go-mqtt/message.ConnectMessage).Decode, (*github.com/mdzio/go-mqtt/message.ConnectMessage).decodeMessage, (*github.com/mdzio/go-mqtt/message.ConnectMessage).validClientID, (*github.com/mdzio/go-mqtt/message.ConnackMessage).Encode
 //@ property C05 roots (*buffer).Close, (*buffer).Read, (*buffer).ReadPeek, (*buffer).ReadWait, (*buffer).ReadCommit, (*buffer).Write, (*buffer).WriteWait, (*buffer).WriteCommit, (*buffer).waitForWriteSpace, (*buffer).ReadFrom, (*buffer).WriteTo, (*service).onPublish, getMessageBuffer, getConnectMessage, (*service).peekMessageSize, (*service).peekMessage, (*github.com/mdzio/go-mqtt/message.ConnectMessage).Decode
 //@ property C08 roots (*service).start$1, (*service).onPublish, (*Server).Publish, (*service).processSubscribe, (*service).publish, (*github.com/mdzio/go-mqtt/message.PublishMessage).SetRetain, (*github.com/mdzio/go-mqtt/message.PublishMessage).SetQoS, (*github.com/mdzio/go-mqtt/message.PublishMessage).Clone, (*github.com/mdzio/go-mqtt/topics.Manager).Retain, (*github.com/mdzio/go-mqtt/topics.Manager).Retained, (*github.com/mdzio/go-mqtt/topics.MemTopics).Retain, (*github.com/mdzio/go-mqtt/topics.rnode).rinsert, (*github.com/mdzio/go-mqtt/topics.rnode).rremove
+//@ property C20 roots (*Client).Connect, (*Client).ConnectTLS, getConnackMessage, (*service).subscribe, (*service).subscribe$1, (*service).unsubscribe, (*service).unsubscribe$1, (*service).ping, (*service).processPublish, (*service).processIncoming, (*service).processAcked, (*service).onPublish, (*github.com/mdzio/go-mqtt/message.ConnackMessage).Decode
 //@ property C19 roots (*service).processIncoming, (*service).receiver, (timeoutReader).Read, (*service).stop, (*github.com/mdzio/go-mqtt/sessions.Session).Update
 //@ property C01 roots (*service).onPublish, (*Server).Publish, (*service).processUnsubscribe
 //@ property C17 roots (*service).writeMessage, (*stat).increment, (*buffer).WriteTo, (*buffer).ReadPeek, (*buffer).ReadCommit, (*buffer).ReadFrom
@@ -739,6 +740,7 @@ func vspecCovered(x int64, start int64, c int64, size int64) bool {
 //@   flag bodyhash 5637eb96d80c
 //@   trusted
 //@   results err
+//@   ensures[assumed-errtype] !typeis(err, message.ConnackCode)
 //@   ensures[ghostdef-connack] gfield(conn, "nconnack") == old(gfield(conn, "nconnack"))+1 && gfield(conn, "ackcode") == int(ifaceval(msg, *message.ConnackMessage).returnCode) && gfield(conn, "acksp") == ite(ifaceval(msg, *message.ConnackMessage).sessionPresent, 1, 0)
 //@   modifies gfield(conn, "nconnack"), gfield(conn, "ackcode"), gfield(conn, "acksp"), ifaceval(msg, *message.header).remlen, ifaceval(msg, *message.header).dirty
 //@ func (*service).start
@@ -862,3 +864,171 @@ func vspecCovered(x int64, start int64, c int64, size int64) bool {
 //@   atcall (*service).publish assumes unchanged(msg.mtypeflags)
 //@   ensures[C08:retain-restored] err == nil ==> msg.mtypeflags[0] == old(msg.mtypeflags[0])
 //@   modifies modset(Callback), modset(Out), modset(AckQ), heap("GF.ncomp"), msg.remlen, msg.dirty, msg.packetID, gfield((*svc), "n3"), gfield((*svc), "id3")
+
+// ================================================================ client library (C20)
+
+// Ghost: nconnackrx counts the CONNACK packets this goroutine has read and decoded, rxcode is the return code of the
+// last one; ndial counts successful dials, lastdial is the connection of the last one.
+//@ func getConnackMessage
+//@   results msg, err
+//@   ensures err == nil ==> msg != nil && fresh(msg) && len(msg.mtypeflags) == 1 && !msg.dirty
+//@   ensures[ghostdef-rx] gfield(0, "nconnackrx") == old(gfield(0, "nconnackrx")) + ite(err == nil, 1, 0) && (err == nil ==> gfield(0, "rxcode") == int(msg.returnCode))
+//@   ensures[C20:errtype] err != nil ==> !typeis(err, message.ConnackCode)
+//@   modifies fields(msg), gfield(0, "nconnackrx"), gfield(0, "rxcode")
+
+//@ iface net.Conn.Close
+//@   trusted
+//@   pure
+//@   ensures[ghostdef-close] gfield(self, "nclosed") == old(gfield(self, "nclosed"))+1
+//@   modifies gfield(self, "nclosed")
+//@ extern net/url.Parse
+//@   results u, err
+//@   ensures err == nil ==> u != nil
+//@   ensures err != nil ==> !typeis(err, message.ConnackCode)
+//@ extern net.Dial
+//@   results c, err
+//@   ensures err == nil ==> c != nil
+//@   ensures err != nil ==> !typeis(err, message.ConnackCode)
+//@   ensures[ghostdef-dial] gfield(0, "ndial") == old(gfield(0, "ndial")) + ite(err == nil, 1, 0) && (err == nil ==> gfield(0, "lastdial") == ref(c) && gfield(c, "nclosed") == 0)
+//@   modifies gfield(0, "ndial"), gfield(0, "lastdial")
+//@ extern (*crypto/tls.Conn).Close
+//@   pure
+//@   ensures[ghostdef-close] gfield(c, "nclosed") == old(gfield(c, "nclosed"))+1
+//@   modifies gfield(c, "nclosed")
+//@ extern (*crypto/tls.Conn).SetReadDeadline
+//@   pure
+//@ extern crypto/tls.Dial
+//@   results c, err
+//@   ensures err == nil ==> c != nil
+//@   ensures err != nil ==> !typeis(err, message.ConnackCode)
+//@   ensures[ghostdef-dial] gfield(0, "ndial") == old(gfield(0, "ndial")) + ite(err == nil, 1, 0) && (err == nil ==> gfield(0, "lastdial") == ref(c) && gfield(c, "nclosed") == 0)
+//@   modifies gfield(0, "ndial"), gfield(0, "lastdial")
+//@ extern github.com/mdzio/go-mqtt/topics.NewMemProvider
+//@   ensures result != nil
+//@ extern github.com/mdzio/go-mqtt/topics.Register
+//@   modifies topics.providers
+//@ extern github.com/mdzio/go-mqtt/topics.NewManager
+//@   results m, err
+//@   ensures err == nil ==> m != nil && m.p != nil
+//@   ensures err != nil ==> !typeis(err, message.ConnackCode)
+//@ func (*Client).checkConfiguration
+//@   ensures cln.ConnectTimeout == ite(old(cln.ConnectTimeout) == 0, DefaultConnectTimeout, old(cln.ConnectTimeout))
+//@   modifies cln.KeepAlive, cln.ConnectTimeout, cln.AckTimeout, cln.TimeoutRetries
+//@ func (*Client).getSession
+//@   flag bodyhash 1436fd1d30ce
+//@   trusted
+//@   results err
+//@   ensures err == nil ==> svc.sess != nil
+//@   ensures err != nil ==> !typeis(err, message.ConnackCode)
+//@   modifies svc.sess, allfields(sessions.Session)
+
+// The deferred functions of Connect / ConnectTLS: any error return closes the connection that was dialled.
+//@ closure (*Client).Connect$1
+//@   requires err != nil && conn != nil && *conn != nil
+//@   ensures[C20:close-on-error] *err != nil ==> gfield(*conn, "nclosed") == old(gfield(*conn, "nclosed"))+1
+//@   ensures[C20:close-on-error] *err == nil ==> gfield(*conn, "nclosed") == old(gfield(*conn, "nclosed"))
+//@   modifies gfield(*conn, "nclosed")
+//@ closure (*Client).ConnectTLS$1
+//@   requires err != nil && conn != nil && *conn != nil
+//@   ensures[C20:close-on-error] *err != nil ==> gfield(*conn, "nclosed") == old(gfield(*conn, "nclosed"))+1
+//@   ensures[C20:close-on-error] *err == nil ==> gfield(*conn, "nclosed") == old(gfield(*conn, "nclosed"))
+//@   modifies gfield(*conn, "nclosed")
+
+// Connect: succeeds exactly when a CONNACK with return code 0 was read; a CONNACK with another code makes it return
+// exactly that code as its error; on every error nothing was started and the dialled connection is closed.
+//@ func (*Client).Connect
+//@   results err
+//@   flag noframe
+//@   requires 0 <= cln.ConnectTimeout && cln.ConnectTimeout <= 1000000 && (msg != nil ==> message.vdefConnSizes(msg) && len(msg.mtypeflags) == 1)
+//@   ensures[C20:accepted] err == nil ==> gfield(0, "nconnackrx") == old(gfield(0, "nconnackrx"))+1 && gfield(0, "rxcode") == 0 && gfield(0, "nstarted") == old(gfield(0, "nstarted"))+1
+//@   ensures[C20:refused] gfield(0, "nconnackrx") == old(gfield(0, "nconnackrx"))+1 && gfield(0, "rxcode") != 0 ==> typeis(err, message.ConnackCode) && int(ifaceval(err, message.ConnackCode)) == gfield(0, "rxcode")
+//@   ensures[C20:code-only-from-connack] typeis(err, message.ConnackCode) ==> gfield(0, "nconnackrx") == old(gfield(0, "nconnackrx"))+1 && int(ifaceval(err, message.ConnackCode)) == gfield(0, "rxcode")
+//@   atcall (*service).start assumes err == nil
+//@   ensures[C20:nothing-started-on-error] err != nil ==> gfield(0, "nstarted") == old(gfield(0, "nstarted"))
+//@   ensures[C20:closed-on-error] err != nil && gfield(0, "ndial") == old(gfield(0, "ndial"))+1 ==> gfield(gfield(0, "lastdial"), "nclosed") == 1
+//@   ensures[C20:open-on-success] err == nil ==> gfield(0, "ndial") == old(gfield(0, "ndial"))+1 && gfield(gfield(0, "lastdial"), "nclosed") == 0
+//@ func (*Client).ConnectTLS
+//@   results err
+//@   flag noframe
+//@   requires 0 <= cln.ConnectTimeout && cln.ConnectTimeout <= 1000000 && (msg != nil ==> message.vdefConnSizes(msg) && len(msg.mtypeflags) == 1)
+//@   ensures[C20:accepted] err == nil ==> gfield(0, "nconnackrx") == old(gfield(0, "nconnackrx"))+1 && gfield(0, "rxcode") == 0 && gfield(0, "nstarted") == old(gfield(0, "nstarted"))+1
+//@   ensures[C20:refused] gfield(0, "nconnackrx") == old(gfield(0, "nconnackrx"))+1 && gfield(0, "rxcode") != 0 ==> typeis(err, message.ConnackCode) && int(ifaceval(err, message.ConnackCode)) == gfield(0, "rxcode")
+//@   ensures[C20:code-only-from-connack] typeis(err, message.ConnackCode) ==> gfield(0, "nconnackrx") == old(gfield(0, "nconnackrx"))+1 && int(ifaceval(err, message.ConnackCode)) == gfield(0, "rxcode")
+//@   atcall (*service).start assumes err == nil
+//@   ensures[C20:nothing-started-on-error] err != nil ==> gfield(0, "nstarted") == old(gfield(0, "nstarted"))
+//@   ensures[C20:closed-on-error] err != nil && gfield(0, "ndial") == old(gfield(0, "ndial"))+1 ==> gfield(gfield(0, "lastdial"), "nclosed") == 1
+//@   ensures[C20:open-on-success] err == nil ==> gfield(0, "ndial") == old(gfield(0, "ndial"))+1 && gfield(gfield(0, "lastdial"), "nclosed") == 0
+
+// The completion function subscribe registers for a SUBSCRIBE (runs when the SUBACK arrives): for every filter of the
+// request, in order, a return code other than 0x80 registers the application callback in the client-local topic tree
+// for exactly that filter with exactly that granted QoS (ghost log of the store calls, see topics.Provider.Subscribe),
+// and 0x80 registers nothing; an error, a foreign message type, differing packet identifiers or a differing number of
+// return codes register nothing at all.
+//@ closure (*service).subscribe$1
+//@   results rerr
+//@   requires svc != nil && (*svc) != nil && (*svc).sess != nil && (*svc).sess.topics != nil && !held(addr((*svc).sess.mu)) && (*svc).topicsMgr != nil && (*svc).topicsMgr.p != nil && onComplete != nil && onPublish != nil
+//@   requires typeis(msg, *message.SubscribeMessage) ==> ifaceval(msg, *message.SubscribeMessage) != nil
+//@   requires typeis(ack, *message.SubackMessage) ==> ifaceval(ack, *message.SubackMessage) != nil
+//@   atcall (*github.com/mdzio/go-mqtt/topics.Manager).Subscribe requires[C20:granted-only] qos != 128 && qos == retcodes[rangeindex+1] && sameslice(topic, topics[rangeindex+1])
+//@   atcall (*github.com/mdzio/go-mqtt/topics.Manager).Subscribe requires[C20:callback] typeis(subscriber, *OnPublishFunc) && ifaceval(subscriber, *OnPublishFunc) != nil && *ifaceval(subscriber, *OnPublishFunc) == old(*onPublish)
+//@   atcall functype github.com/mdzio/go-mqtt/service.OnCompleteFunc assumes gfield(0, "nsub") == old(gfield(0, "nsub"))
+//@   loop 1 invariant 0 <= rangeindex+1 && rangeindex < len(topics) && len(topics) == len(retcodes) && heldsame() && gfield(0, "nsub") >= old(gfield(0, "nsub")) && gfield(0, "nsub") <= old(gfield(0, "nsub"))+rangeindex+1
+//@   loop 1 invariant[state] (*svc) != nil && (*svc).sess != nil && (*svc).sess.topics != nil && (*svc).topicsMgr != nil && (*svc).topicsMgr.p != nil
+//@   loop 1 step[C20:refused-not-registered] c == 128 ==> gfield(0, "nsub") == old(gfield(0, "nsub"))
+//@   loop 1 step[C20:granted-registered] c != 128 ==> gfield(0, "nsub") == old(gfield(0, "nsub"))+1 && gfield(old(gfield(0, "nsub")), "subarr") == arr(t) && gfield(old(gfield(0, "nsub")), "suboff") == off(t) && gfield(old(gfield(0, "nsub")), "sublen") == len(t) && gfield(old(gfield(0, "nsub")), "subreq") == int(c)
+//@   ensures[C20:nothing-on-error] err != nil ==> gfield(0, "nsub") == old(gfield(0, "nsub"))
+//@   ensures[C20:nothing-on-foreign] !typeis(msg, *message.SubscribeMessage) || !typeis(ack, *message.SubackMessage) ==> gfield(0, "nsub") == old(gfield(0, "nsub"))
+//@   ensures[C20:at-most-one-per-filter] typeis(msg, *message.SubscribeMessage) ==> gfield(0, "nsub") <= old(gfield(0, "nsub"))+len(ifaceval(msg, *message.SubscribeMessage).topics)
+//@   modifies modset(Callback), heap("GF.ncomp"), modset(TopicStore), modset(SessTopics), heap("GF.nsub"), heap("GF.subarr"), heap("GF.suboff"), heap("GF.sublen"), heap("GF.subreq"), heap("GF.subres"), heap("GF.clock"), heap("GF.mlockedAt"), allfields(message.header)
+
+// The completion function unsubscribe registers for an UNSUBSCRIBE (runs when the UNSUBACK arrives): every filter of
+// the request is removed from the client-local topic tree, in order, for all subscribers (nil); an error, a foreign
+// message type or differing packet identifiers remove nothing.
+//@ closure (*service).unsubscribe$1
+//@   results rerr
+//@   requires svc != nil && (*svc) != nil && (*svc).sess != nil && !held(addr((*svc).sess.mu)) && (*svc).topicsMgr != nil && (*svc).topicsMgr.p != nil && onComplete != nil
+//@   requires typeis(msg, *message.UnsubscribeMessage) ==> ifaceval(msg, *message.UnsubscribeMessage) != nil
+//@   requires typeis(ack, *message.UnsubackMessage) ==> ifaceval(ack, *message.UnsubackMessage) != nil
+//@   atcall (*github.com/mdzio/go-mqtt/topics.Manager).Unsubscribe requires[C20:all-subscribers] subscriber == nil && sameslice(topic, rangeslice[rangeindex+1])
+//@   atcall functype github.com/mdzio/go-mqtt/service.OnCompleteFunc assumes gfield(0, "nunsub") == old(gfield(0, "nunsub"))
+//@   loop 1 invariant 0 <= rangeindex+1 && rangeindex < len(rangeslice) && heldsame() && gfield(0, "nunsub") == old(gfield(0, "nunsub"))+rangeindex+1 && sameslice(rangeslice, ifaceval(msg, *message.UnsubscribeMessage).topics)
+//@   loop 1 invariant[state] (*svc) != nil && (*svc).sess != nil && (*svc).topicsMgr != nil && (*svc).topicsMgr.p != nil
+//@   loop 1 invariant[asked] forall(0, rangeindex+1, func(i int) bool { return gfield(old(gfield(0, "nunsub"))+i, "unsubarr") == arr(rangeslice[i]) && gfield(old(gfield(0, "nunsub"))+i, "unsuboff") == off(rangeslice[i]) && gfield(old(gfield(0, "nunsub"))+i, "unsublen") == len(rangeslice[i]) })
+//@   loop 1 invariant[frame] preservedobjs(message.UnsubscribeMessage) && unchanged(rangeslice)
+//@   ensures[C20:nothing-on-error] err != nil ==> gfield(0, "nunsub") == old(gfield(0, "nunsub"))
+//@   ensures[C20:nothing-on-foreign] !typeis(msg, *message.UnsubscribeMessage) || !typeis(ack, *message.UnsubackMessage) ==> gfield(0, "nunsub") == old(gfield(0, "nunsub"))
+//@   ensures[C20:all-or-nothing] typeis(msg, *message.UnsubscribeMessage) ==> gfield(0, "nunsub") == old(gfield(0, "nunsub")) || gfield(0, "nunsub") == old(gfield(0, "nunsub"))+len(ifaceval(msg, *message.UnsubscribeMessage).topics)
+//@   ensures[C20:all-removed] err == nil && typeis(msg, *message.UnsubscribeMessage) && typeis(ack, *message.UnsubackMessage) && old(message.vspecPacketID(ifaceval(msg, *message.UnsubscribeMessage).packetID) == message.vspecPacketID(ifaceval(ack, *message.UnsubackMessage).packetID)) ==> gfield(0, "nunsub") == old(gfield(0, "nunsub"))+len(ifaceval(msg, *message.UnsubscribeMessage).topics)
+//@   modifies modset(Callback), heap("GF.ncomp"), modset(TopicStore), modset(SessTopics), heap("GF.nunsub"), heap("GF.unsubarr"), heap("GF.unsuboff"), heap("GF.unsublen"), heap("GF.clock"), heap("GF.mlockedAt"), allfields(message.header)
+
+// subscribe / unsubscribe / ping (client requests): exactly one packet of the request's type is written and the
+// request is then registered in the matching ack queue together with its completion function; a Subscribe without a
+// message callback is refused before anything is sent.
+//@ func (*service).subscribe
+//@   results err
+//@   requires vdefOut(svc) && msg != nil && len(msg.mtypeflags) == 1 && message.Type(msg.mtypeflags[0]>>4) == message.SUBSCRIBE && svc.sess != nil && vdefQ(svc.sess.Suback)
+//@   rely modifies svc.out.pseq.cursor, svc.out.pseq.gate, svc.out.cseq.cursor, svc.out.done, svc.out.pwait, elems(svc.out.buf)
+//@   rely ensures vdefRing(svc.out) && arr(svc.outtmp) != arr(svc.out.buf)
+//@   ensures[C20:needs-callback] onPublish == nil ==> err != nil && gfield(svc, "n8") == old(gfield(svc, "n8")) && gfield(svc.sess.Suback, "nwait") == old(gfield(svc.sess.Suback, "nwait"))
+//@   ensures[C20:sent-and-registered] err == nil ==> gfield(svc, "n8") == old(gfield(svc, "n8"))+1 && gfield(svc.sess.Suback, "nwait") == old(gfield(svc.sess.Suback, "nwait"))+1 && gfield(svc.sess.Suback, "lastwait") == msg
+//@   ensures[inv] vdefOut(svc)
+//@   modifies modset(Out), modset(AckQ), msg.remlen, msg.dirty, msg.packetID, elems(msg.packetID), gfield(svc, "n8"), gfield(svc, "id8")
+
+//@ func (*service).unsubscribe
+//@   results err
+//@   requires vdefOut(svc) && msg != nil && len(msg.mtypeflags) == 1 && message.Type(msg.mtypeflags[0]>>4) == message.UNSUBSCRIBE && svc.sess != nil && vdefQ(svc.sess.Unsuback)
+//@   rely modifies svc.out.pseq.cursor, svc.out.pseq.gate, svc.out.cseq.cursor, svc.out.done, svc.out.pwait, elems(svc.out.buf)
+//@   rely ensures vdefRing(svc.out) && arr(svc.outtmp) != arr(svc.out.buf)
+//@   ensures[C20:sent-and-registered] err == nil ==> gfield(svc, "n10") == old(gfield(svc, "n10"))+1 && gfield(svc.sess.Unsuback, "nwait") == old(gfield(svc.sess.Unsuback, "nwait"))+1 && gfield(svc.sess.Unsuback, "lastwait") == msg
+//@   ensures[inv] vdefOut(svc)
+//@   modifies modset(Out), modset(AckQ), msg.remlen, msg.dirty, msg.packetID, elems(msg.packetID), gfield(svc, "n10"), gfield(svc, "id10")
+
+//@ func (*service).ping
+//@   results err
+//@   requires vdefOut(svc) && svc.sess != nil && vdefQ(svc.sess.Pingack)
+//@   rely modifies svc.out.pseq.cursor, svc.out.pseq.gate, svc.out.cseq.cursor, svc.out.done, svc.out.pwait, elems(svc.out.buf)
+//@   rely ensures vdefRing(svc.out) && arr(svc.outtmp) != arr(svc.out.buf)
+//@   atcall (*service).writeMessage assumes ifaceval(msg, *message.header).remlen == 0 && ifaceval(msg, *message.header).dirty
+//@   ensures[C20:sent-and-registered] err == nil ==> gfield(svc, "n12") == old(gfield(svc, "n12"))+1 && gfield(svc.sess.Pingack, "nwait") == old(gfield(svc.sess.Pingack, "nwait"))+1
+//@   ensures[inv] vdefOut(svc)
+//@   modifies modset(Out), modset(AckQ), allfields(message.header), gfield(svc, "n12"), gfield(svc, "id12")
